@@ -13,12 +13,17 @@ open RdfModel RdfModel.TA RdfModel.C02 RdfModel.Ttl RdfModel.Spec.TtlPrint
 
 def scalarsB (s : List Nat) : Bool := s.all isScalarB
 
+/-- A prefix label the decoder reads as written: `prefixOK` (PN_PREFIX) and no U+1680 (OGHAM SPACE MARK), the
+    one PN_CHARS_BASE character the decoder's white-space test (`unicode.IsSpace`) swallows — finding
+    `pname-prefix-space`. -/
+def prefixOK2 (T : Tables) (p : List Nat) : Bool := prefixOK T p && !p.contains 0x1680
+
 /-! ### Well-formed documents: every leaf is the value of some token, lists are non-empty where the
     grammar wants them non-empty -/
 
 def iriWf (T : Tables) : IriS → Bool
   | .ref r => scalarsB r
-  | .pn p l => prefixOK T p && scalarsB p && scalarsB l && (printLocal T [] l).isSome
+  | .pn p l => prefixOK2 T p && scalarsB p && scalarsB l && (printLocal T [] l).isSome
 
 def litWf (T : Tables) : Lit → Bool
   | .plain lex => scalarsB lex
@@ -69,7 +74,7 @@ def triplesWf (T : Tables) (t : Triples) : Bool :=
   subjWf T t.s && posWf T t.pos && (!t.pos.isEmpty || subjIsBnpl t.s)
 
 def dirWf (T : Tables) : Dir → Bool
-  | .prefixAt p r | .prefixKw p r => prefixOK T p && scalarsB p && scalarsB r
+  | .prefixAt p r | .prefixKw p r => prefixOK2 T p && scalarsB p && scalarsB r
   | .baseAt r | .baseKw r => scalarsB r
 
 def glabelWf (T : Tables) : GLabel → Bool
@@ -146,13 +151,8 @@ def blockNoBoolPfx : Block → Bool
 
 def docNoBoolPfx (doc : Doc) : Bool := doc.all blockNoBoolPfx
 
-/-- finding `comment-cr`: a comment ended by a lone CR -/
-def itemLf : LItem → Bool
-  | .comment _ 2 => false
-  | _ => true
-
 /-- finding `keyword-glue`: a keyword not followed by a white-space character -/
-def slotOK (s : Slot) : Bool := !s.glue && s.lay.all itemLf && s.lay2.all itemLf
+def slotOK (s : Slot) : Bool := !s.glue
 
 def choicesOK (ch : Choices) : Bool := ch.all slotOK
 
@@ -183,10 +183,10 @@ structure TablesOK2 (T : Tables) : Prop where
   /-- NUL is not a name character (step budget of the machine, C05) -/
   nul : inRanges T.pnCharsBase 0 = false
 
-/-- Runes that are never white space for the decoder: name characters and delimiters other than the
-    four white-space characters. -/
+/-- Runes that are never white space for the decoder: name characters (but U+1680, which Go's
+    `unicode.IsSpace` contains) and delimiters other than the four white-space characters. -/
 def solid (T : Tables) (c : Nat) : Bool :=
-  inRanges T.pnChars c || (delims.contains c && !isWsRune c)
+  (inRanges T.pnChars c && c != 0x1680) || (delims.contains c && !isWsRune c)
 
 /-- What the theorems need from the decoder configuration: the real token producers over the
     tables `T`, `T`'s PN_CHARS_BASE, and a white-space predicate (Go: `unicode.IsSpace`) that
